@@ -100,7 +100,7 @@ CLAIMS = {
         "failed_call_keeps_code (whatever makes a call fail, the offset and every byte before it are unchanged, bookkeeping intact, nothing written "
         "outside), readFile_fails / file_failure_reports / read_error_fails, bin_file_success_iff / bin_file_complete (success iff fopen ok, every "
         "byte written, fclose ok - and then the file is code[0,offset)). Tie: --wrap fault-injection harness over the real library: EVERY single "
-        "failure of every malloc/mmap/mremap/munmap/open/fstat/read/close/fopen/fwrite/fclose call the library objects make in six scenarios (plus fitting/counting growth scenarios and growthfar: ONE call that has to grow the buffer several times, each of its mremap steps refused in turn), one "
+        "failure of every malloc/mmap/mremap/munmap/open/fstat/read/close/fopen/fwrite/fclose call the library objects make in six scenarios (plus fitting/counting growth scenarios and growthfar: ONE call that has to grow the buffer several times, each of its mremap steps refused in turn; the six base scenarios also with the refusals reported as EINTR / EAGAIN, thorough EIO / ENOSPC too), one "
         "process per schedule (a crash is an outcome), observations checked against the property and against the model's prediction; T6: nm "
         "inventory of the libc symbols the library objects reference (a new fallible call breaks the obligation).",
    note="PARTIAL: the kernel's behaviour on a refused call is assumed; combinations of several faults are covered by the theorems, not injected; "
@@ -132,12 +132,15 @@ CLAIMS = {
    technique="Lean 4 model of the read loop with OS answers as parameters, proof by induction over reads; twin-instance differential harness over file sizes",
    design="8/C19"),
  "C20": dict(
-   text="Model AL.Impl.Cli (tools/asmline.c from the parsed flag list on). Theorems C20.usage_error_exits, exit_zero_iff (exit status 0 iff no usage "
+   text="C20.stdin_equals_file (kernel-checked): for EVERY flag list and EVERY program text, asmline reading stdin (one library call per getline piece, counts "
+        "added up) ends with the same exit status as asmline reading FILE (one call), and on success with the same instance (buffer, offset, options) and the same "
+        "count - induction over the lines (stdinLoop_plain, stdinLoop_counting) on top of Lemmas.Split.call_split / count_split. "
+        "Model AL.Impl.Cli (tools/asmline.c from the parsed flag list on). Theorems C20.usage_error_exits, exit_zero_iff (exit status 0 iff no usage "
         "error, the assembly succeeded and the requested binary output succeeded), option_calls / option_calls_spec (the option byte of the run is "
         "the documented calls: -n/-t/-s as asm_set_all in command-line order, then the long flags as asm_mov_imm, asm_sib, "
         "asm_sib_index_base_swap, asm_sib_no_base - through C12's refinement, AL.Spec.apply folded over them), getlines_join (the stdin pieces "
         "concatenate to the input), file_mode_is_library. Tie: the asmline executable on programs x 24 mode-flag sequences x 15 output-flag sets x "
-        "{stdin, FILE}: exit status, -P/-o file bytes, -b count vs the model; -p hex parsed back and -r value checked directly; programs with empty lines behind boundary-crossing instructions; the -b count from stdin equals the one from FILE.",
+        "{stdin, FILE}: exit status, -P/-o file bytes, -b count vs the model; -p hex parsed back and -r value checked directly; programs with empty lines behind boundary-crossing instructions and with CR-only / CRLF line ends; the -b count from stdin equals the one from FILE.",
    note="PARTIAL: getopt_long is assumed; what -p prints and the stdin/FILE equality on whole programs are checked on the executable (C06 "
         "split_calls and C14 additivity are the two-call lemmas behind it), not proved end to end.",
    technique="Lean 4 model of the command-line tool over the library model + refinement to the documented option table; differential run of the executable",
@@ -205,7 +208,10 @@ CLAIMS = {
    technique="Lean 4 proofs by induction over the input text (filter automaton) + metamorphic oracle and differential correspondence",
    design="8/C16"),
  "C06": dict(
-   text="Theorems AL.Properties.C06.program_code / concat_call / split_codes / split_calls with AL.Lemmas.assembleLine_local and "
+   text="STRONGEST FORM, kernel-checked, no side conditions: AL.Lemmas.Split.call_split / call_split_err - for EVERY instance, mode (plain or chunk fitting), "
+        "buffer and text t1 ++ [eol] ++ t2: if t1 assembles, the one call IS the call on t2 after the call on t1 (same return value, same instance field by field: "
+        "buffer, length, offset, options); a rejected t1 rejects the whole at the same point (count_split / count_split_err: counting mode, counts added). "
+        "Theorems AL.Properties.C06.program_code / concat_call / split_codes / split_calls with AL.Lemmas.assembleLine_local and "
         "asm_layout: for EVERY text the codes assemble_all emits are the codes of its lines (split at each CR/LF) assembled ALONE by the "
         "state-less per-line function; a successful plain call leaves, from the old offset, exactly their concatenation, advances the "
         "offset by its length and touches nothing before it (the right-hand side mentions neither prior buffer contents nor earlier "
@@ -244,7 +250,8 @@ CLAIMS = {
    technique="Lean 4 proof (modular arithmetic + layout induction) + differential correspondence and layout oracle",
    design="8/C13"),
  "C14": dict(
-   text="Theorems AL.Properties.C14.count_call / count_call_small / crossCount_append with AL.Lemmas.cross_iff: on an instance without "
+   text="AL.Lemmas.Split.count_split (kernel-checked, no side conditions): a counting call on t1 ++ [eol] ++ t2 is the counting call on t2 after the one on t1, "
+        "same instance, counts ADDED. Theorems AL.Properties.C14.count_call / count_call_small / crossCount_append with AL.Lemmas.cross_iff: on an instance without "
         "fitting, for EVERY text, start offset and chunk size 2<=c<2^31 the counting call leaves the instance exactly as asm_assemble_str "
         "does (bytes, offset, options, mode and chunk setting restored), returns the same value and stores the number of this call's "
         "instructions with floor(p/c) != floor((p+len-1)/c); for c<2 it is a plain assembly reporting 0. Tie + oracle: chunk sizes "
